@@ -38,6 +38,12 @@ pub use gatt::*;
 mod gatt;
 mod session;
 
+/// Verification hook: re-export of the (private) BTP packet header / handshake codecs.
+#[cfg(feature = "verif")]
+pub mod verif_packet {
+    pub use super::session::verif_packet::*;
+}
+
 /// The maximum size of a BTP segment.
 pub(crate) const MAX_BTP_SEGMENT_SIZE: usize = 244;
 /// The size of the GATT header. `MAX_BTP_SEGMENT_SIZE` + `GATT_HEADER_SIZE` is 247 bytes, which is the maximum ATT MTU size supported by the BTP protocol.
